@@ -64,14 +64,14 @@ def scenario_confirm(v, out):
     return (bad, detail)
 
 
-def o3_2b_keep_drop(mir, tier):
+def o3_2b_keep_drop(mir, tier, which='keepdrop'):
     """The merge loop of compact_tables over an abstract sorted input: for every snapshot q >= smallest_snapshot and every user
     key, what a reader at q sees is the same before and after (or a dropped tombstone at the base level hides nothing kept)."""
     clo = [f for f in mir.fns.values() if f.path.endswith('compact_tables::{closure#0}')]
     if len(clo) != 1: raise Inconclusive('compact_tables closure not found')
     fn = clo[0]
     E_MAX = 3 if tier == 'quick' else 4
-    res = Result('O3.2b keep/drop rule of compact_tables', [fn.path],
+    res = Result('O3.2b keep/drop rule of compact_tables' if which == 'keepdrop' else 'O10.10 bounds recorded for the outputs of compact_tables', [fn.path],
                  'merged input of 1..%d entries (free user keys, sequences, tags, sorted); smallest snapshot and reader snapshot free; TableBuilder / CompactionState / should_stop_before_key / file sizes by contract; is_base_level_for_key answers freely' % E_MAX)
     t0 = time.time()
     for m in range(1, E_MAX + 1):
@@ -85,7 +85,8 @@ def o3_2b_keep_drop(mir, tier):
         tok = lambda name: (lambda se, env, pc, *a: lib.one(env, name))
         P[r'CompactionState::compaction_manifest(?:_mut)?'] = tok({'abstract': True, '__ty': 'CompactionManifest'})
         P[r'CompactionState::table_builder_mut'] = tok({'abstract': True, '__ty': 'TableBuilder'})
-        P[r'CompactionState::current_output_mut'] = tok({'abstract': True, '__ty': 'FileMetadata'})
+        # the output's metadata is a real FileMetadata value in the cell $out (bounds readable through the real accessors)
+        P[r'CompactionState::current_output_mut'] = tok(Ref('$out'))
         P[r'<Arc<TableCache> as Clone>::clone'] = tok('table_cache')
         P[r'CompactionManifest::make_merging_iterator'] = lambda se, env, pc, *a: lib.one(env, Enum('Ok', ({'abstract': True, 'pos': None, '__ty': 'MergingIterator'},)))
         MI = '<MergingIterator as RainDbIterator>::'
@@ -102,7 +103,10 @@ def o3_2b_keep_drop(mir, tier):
         P[r'<Arc<Atomic<bool>> as Deref>::deref'] = lib.ident
         P[r'CompactionState::has_table_builder'] = lambda se, env, pc, *a: lib.one(env, BoolVal(env['$state']['open']))
         def open_out(se, env, pc, *a):
-            st = dict(env['$state']); st['open'] = True; st['nentries'] = 0; return [(None, Enum('Ok', ((),)), st)]
+            st = dict(env['$state']); st['open'] = True; st['nentries'] = 0
+            st['outs'] = st['outs'] + [{'entries': [], 'smallest': None, 'largest': None}]
+            se.store(env, Ref('$out'), mir.mk_struct('FileMetadata', allowed_seeks=Enum('None'), file_number=bv(100 + len(st['outs'])), file_size=bv(0), smallest_key=Enum('None'), largest_key=Enum('None')))
+            return [(None, Enum('Ok', ((),)), st)]
         P[r'CompactionState::open_compaction_output_file'] = open_out
         def finish(se, env, pc, *a):
             st = dict(env['$state']); st['open'] = False; st['files'] = st['files'] + 1; return [(None, Enum('Ok', ((),)), st)]
@@ -111,7 +115,10 @@ def o3_2b_keep_drop(mir, tier):
         def add_entry(se, env, pc, tb, key, val):
             k = se.deref(env, key)
             idx = [i for i in range(m) if k[0].eq(keys[i][0]) and k[1].eq(keys[i][1])]
-            st = dict(env['$state']); st['kept'] = st['kept'] + [idx[0] if idx else -1]; st['nentries'] += 1; return [(None, Enum('Ok', ((),)), st)]
+            st = dict(env['$state']); st['kept'] = st['kept'] + [idx[0] if idx else -1]; st['nentries'] += 1
+            if st['outs']: st['outs'] = st['outs'][:-1] + [dict(st['outs'][-1], entries=st['outs'][-1]['entries'] + [idx[0] if idx else -1])]
+            else: st['orphan_add'] = True
+            return [(None, Enum('Ok', ((),)), st)]
         P[r'TableBuilder::add_entry'] = add_entry
         def fresh(prefix, sort):
             def f(se, env, pc, *a):
@@ -120,7 +127,20 @@ def o3_2b_keep_drop(mir, tier):
             return f
         P[r'TableBuilder::file_size'] = fresh('file_size', 'bv')
         P[r'CompactionManifest::max_output_file_size_bytes'] = lambda se, env, pc, *a: lib.one(env, BitVec('max_out', 64))
-        P[r'FileMetadata::set_(?:smallest|largest)_key'] = tok(())
+        def setter(which_):
+            def f(se, env, pc, fm, key):
+                k = se.deref(env, key) if isinstance(key, Ref) else key
+                kk = k.fields[0] if isinstance(k, Enum) and k.tag == 'Some' else None
+                while isinstance(kk, Ref): kk = se.deref(env, kk)
+                idx = [i for i in range(m) if kk is not None and kk[0].eq(keys[i][0]) and kk[1].eq(keys[i][1])]
+                st = dict(env['$state'])
+                if st['outs'] and st['open']: st['outs'] = st['outs'][:-1] + [dict(st['outs'][-1], **{which_: (idx[0] if idx else -1)})]
+                else: st['orphan_set'] = True
+                fmf = mir.struct_fields('FileMetadata')
+                fv = dict(se.deref(env, Ref('$out'))); fv[fmf.index(which_ + '_key')] = k; se.store(env, Ref('$out'), fv)
+                return [(None, (), st)]
+            return f
+        P[r'FileMetadata::set_smallest_key'] = setter('smallest'); P[r'FileMetadata::set_largest_key'] = setter('largest')
         P[r'CompactionState::get_smallest_snapshot'] = lambda se, env, pc, *a: lib.one(env, s_snap)
         def base(se, env, pc, mref, key):
             k = se.deref(env, key); idx = [i for i in range(m) if k[0].eq(keys[i][0]) and k[1].eq(keys[i][1])][0]
@@ -138,6 +158,23 @@ def o3_2b_keep_drop(mir, tier):
             kept = st['kept']
             q = BitVec('reader_snapshot', 64)
             posts = [('an entry is written to the output twice or out of order', BoolVal(kept == sorted(set(kept)) and -1 not in kept))]
+            if which == 'bounds':
+                outs = st['outs']
+                posts = [('the smallest key recorded for a compaction output is not the first entry written to it', BoolVal(all(o['entries'] and o['smallest'] == o['entries'][0] for o in outs))),
+                         ('the largest key recorded for a compaction output is not the last entry written to it (the file holds entries beyond its reported range, or its range covers entries it does not hold)',
+                          BoolVal(all(o['entries'] and o['largest'] == o['entries'][-1] for o in outs))),
+                         ('a key range is recorded / an entry is written while no compaction output is open', BoolVal(not st.get('orphan_set') and not st.get('orphan_add')))]
+                for label, post in posts:
+                    ex.record_formula(label, pc, Not(post))
+                    mm = ex.model(Not(post))
+                    if mm is not None:
+                        ents = [(mval(mm, e[0]), mval(mm, e[1]), mval(mm, e[2])) for e in E]
+                        # no anchor keys around the entries: the last entry of the merge must be the last entry of its output
+                        rep = scenario_for_entries(ents, mval(mm, s_snap), mval(mm, s_snap), anchors=False)
+                        ci = rep.index('C'); rep = rep[:ci + 1] + ['A'] + rep[ci + 1:] + ['R', 'A']
+                        res.violations.append({'label': label, 'entries': ents, 'kept': kept, 'outputs': [dict(o) for o in outs], 'smallest_snapshot': mval(mm, s_snap), 'replay': rep})
+                res.cases['kept %d of %d in %d outputs' % (len(kept), m, len(outs))] = res.cases.get('kept %d of %d in %d outputs' % (len(kept), m, len(outs)), 0) + 1
+                return
             keptset = set(kept)
             for a in range(m):          # representative user key = that of entry a
                 ua = E[a][0]
@@ -161,9 +198,10 @@ def o3_2b_keep_drop(mir, tier):
                                            'base_answers': [(j, mval(mm, b)) for j, b in st['base']],
                                            'replay': scenario_for_entries(ents, mval(mm, s_snap), mval(mm, q))})
             res.cases['kept %d of %d' % (len(kept), m)] = res.cases.get('kept %d of %d' % (len(kept), m), 0) + 1
-        env = {'$state': {'open': False, 'nentries': 0, 'kept': [], 'base': [], 'files': 0, 'n': 0}, '$cs': {'abstract': True, '__ty': 'CompactionState'},
+        env = {'$state': {'open': False, 'nentries': 0, 'kept': [], 'base': [], 'files': 0, 'n': 0, 'outs': []}, '$cs': {'abstract': True, '__ty': 'CompactionState'},
                '$dbs': mir.mk_struct('PortableDatabaseState', table_cache='tc', is_shutting_down='atomic', has_immutable_memtable='atomic'), '$dur': Opaque('duration'),
-               '$keys': keys, '$vals': [BitVec('val%d' % i, 8) for i in range(m)]}
+               '$keys': keys, '$vals': [BitVec('val%d' % i, 8) for i in range(m)],
+               '$out': mir.mk_struct('FileMetadata', allowed_seeks=Enum('None'), file_number=bv(100), file_size=bv(0), smallest_key=Enum('None'), largest_key=Enum('None'))}
         clo_val = {0: Ref('$cs'), 1: Ref('$dbs'), 2: Ref('$dur'), '__closure': 'x'}
         # closure captures: order as in the MIR signature (resolved by name below)
         fn.parse()
@@ -190,7 +228,7 @@ def closure_env(mir, fn):
     return d
 
 
-def scenario_for_entries(ents, s_snap, q):
+def scenario_for_entries(ents, s_snap, q, anchors=True):
     """Turn a counterexample of the keep/drop rule (sorted entries (key, seq, op), smallest snapshot, reader snapshot) into a
     DB-level scenario: the writes in sequence order, snapshots at the two bounds, flushes so that a real table compaction
     merges them, then reads at both snapshots and at the latest state."""
@@ -201,7 +239,7 @@ def scenario_for_entries(ents, s_snap, q):
     def maybe_snap(bound, after_seq, next_seq):
         return after_seq <= bound and (next_seq is None or bound < next_seq)
     # an anchor key below and above so that flushed tables overlap and must be merged
-    steps += ['P0000=aa', 'Pfffe=bb', 'F']
+    if anchors: steps += ['P0000=aa', 'Pfffe=bb', 'F']
     for i, e in enumerate(writes):
         k = key_bytes(e[0])
         steps.append(('P%s=%02x' % (k, (i + 1) & 0xff)) if e[2] == 1 else 'D%s' % k)
@@ -218,3 +256,110 @@ def scenario_for_entries(ents, s_snap, q):
     for name in snaps: steps.append('I@%d' % taken[name])
     steps.append('I')
     return ['db_scenario'] + steps
+
+
+def o10_10_output_bounds(mir, tier):
+    """Same exploration of the merge loop as O3.2b (1..3 (4) sorted entries, free snapshot bound, free answers of should_stop_before_key,
+    file sizes and is_base_level_for_key, so every way of cutting the kept entries into output files occurs), but the monitored state is
+    the bookkeeping of the outputs: which entries went into which output and which keys were recorded as its bounds.  Reference: every
+    output's smallest / largest key is exactly its first / last written entry - with several kept versions of one user key (a live
+    snapshot) and with dropped entries after the last kept one."""
+    return o3_2b_keep_drop(mir, tier, which='bounds')
+
+
+def o7_13_compaction_outcome(mir, tier):
+    """CompactionWorker::compact_tables from the end of the merge (the unlocked section by contract: it returns the input iterator or an
+    error) to the end: shutting down / an output still open / finishing it fails / the input iterator holds an error (a lazily opened
+    input that could not be read) / installing fails - every combination.  Reference: the results are installed (inputs deleted, outputs
+    added) only when the merge returned its iterator, the database is not shutting down, an open output was finished successfully
+    BEFORE the installation and the input iterator reports no error; every failure is recorded as the database's failed state; nothing
+    is installed after a failure."""
+    fn = mir.method('CompactionWorker', 'compact_tables')
+    res = Result('O7.13 outcome of compact_tables', [fn.path + ' (from the end of the merge section)'],
+                 'merge section by contract (Ok(iterator) / Err), shutting-down flag, open output, result of finishing it, iterator error, install result: all free booleans')
+    t0 = time.time()
+    for merge_ok in (True, False):
+        for open_out in ((False, True) if merge_ok else (False,)):
+            S = base_summaries(mir)
+            P = S['$patterns']
+            shut, fin_ok, it_err, inst_ok, empty = Bool('shutting_down'), Bool('finish_output_ok'), Bool('input_iterator_has_error'), Bool('install_ok'), Bool('snapshots_empty')
+            def add(env, ev):
+                st = dict(env['$state']); st['events'] = st['events'] + [ev]; env['$state'] = st
+            P[GUARD] = lib.ptr_deref
+            P[r'Instant::now'] = lambda se, env, pc: lib.one(env, Opaque('instant'))
+            P[r'Instant::elapsed'] = lambda se, env, pc, i: lib.one(env, Opaque('duration'))
+            P[r'<Duration as Default>::default'] = lambda se, env, pc: lib.one(env, Opaque('duration'))
+            P[r'<Duration as Sub>::sub'] = lambda se, env, pc, a, b: lib.one(env, Opaque('duration'))
+            P[r'<Duration as AddAssign>::add_assign'] = lib.unit
+            P[r'CompactionManifest::(?:get_compaction_level_files|get_parent_level_files)'] = lambda se, env, pc, m: lib.one(env, [])
+            P[r'CompactionManifest::level'] = lambda se, env, pc, m: lib.one(env, bv(1))
+            P[r'CompactionManifest::compaction_input_read_bytes'] = lambda se, env, pc, m: lib.one(env, BitVec('input_bytes', 64))
+            P[r'VersionSet::level_summary'] = lambda se, env, pc, m: lib.one(env, {'str': 'summary'})
+            P[r'VersionSet::num_files_at_level'] = lambda se, env, pc, vs, l: lib.one(env, bv(2))
+            P[r'VersionSet::get_prev_sequence_number'] = lambda se, env, pc, vs: lib.one(env, BitVec('prev_sequence_number', 64))
+            P[r'SnapshotList::is_empty'] = lambda se, env, pc, l: lib.one(env, empty)
+            P[r'SnapshotList::oldest'] = lambda se, env, pc, l: lib.one(env, mir.mk_struct('Node', element={'abstract': True}))
+            P[r'<Arc<parking_lot::lock_api::RwLock<parking_lot::RawRwLock, Node<InnerSnapshot>>> as Deref>::deref'] = lib.ident
+            P[r'InnerSnapshot::sequence_number'] = lambda se, env, pc, n: lib.one(env, BitVec('oldest_snapshot_seq', 64))
+            P[r'CompactionState::new'] = lambda se, env, pc, manifest, seq: lib.one(env, {'abstract': True, '__ty': 'CompactionState'})
+            P[r'CompactionState::compaction_manifest(?:_mut)?'] = lambda se, env, pc, c: lib.one(env, {'abstract': True, '__ty': 'CompactionManifest'})
+            P[r'CompactionState::get_output_size'] = lambda se, env, pc, c: lib.one(env, BitVec('output_bytes', 64))
+            def merged(se, env, pc, guard, clo, merge_ok=merge_ok):
+                add(env, ('merge',))
+                return [(None, Enum('Ok', ({'abstract': True, '__ty': 'MergingIterator'},)) if merge_ok else Enum('Err', (Enum('IO', ({'merge failed': 1},), 'RainDBError'),)), env['$state'])]
+            P[r'parking_lot::lock_api::MutexGuard::unlocked_fair'] = merged
+            P[r'Atomic::load'] = lambda se, env, pc, *a: lib.one(env, shut)
+            P[r'<Arc<Atomic<bool>> as Deref>::deref'] = lib.ident
+            P[r'<Arc<TableCache> as Clone>::clone'] = lambda se, env, pc, *a: lib.one(env, 'table_cache')
+            P[r'CompactionState::has_table_builder'] = lambda se, env, pc, c, open_out=open_out: lib.one(env, BoolVal(open_out and not any(e[0] == 'finish output' for e in env['$state']['events'])))
+            def finish(se, env, pc, *a):
+                add(env, ('finish output',))
+                return [(fin_ok, Enum('Ok', ((),)), env['$state']), (Not(fin_ok), Enum('Err', (Enum('IO', ({'finish failed': 1},), 'RainDBError'),)), env['$state'])]
+            P[r'CompactionState::finish_compaction_output_file'] = finish
+            def get_error(se, env, pc, it):
+                add(env, ('ask iterator for errors',))
+                return [(it_err, Enum('Some', (Enum('IO', ({'input unreadable': 1},), 'RainDBError'),)), env['$state']), (Not(it_err), Enum('None'), env['$state'])]
+            P[r'MergingIterator::get_error'] = get_error
+            def install(se, env, pc, *a):
+                add(env, ('install',))
+                return [(inst_ok, Enum('Ok', ((),)), env['$state']), (Not(inst_ok), Enum('Err', ({'install failed': 1, '__ty': 'CompactionWorkerError'},)), env['$state'])]
+            P[r'CompactionWorker::install_compaction_results'] = install
+            def bad(se, env, pc, *a):
+                add(env, ('failed state',)); return [(None, (), env['$state'])]
+            P[r'DB::set_bad_database_state'] = bad
+            P[r'<CompactionWorkerError as Into<RainDBError>>::into'] = lambda se, env, pc, e: lib.one(env, Enum('Compaction', (e,), 'RainDBError'))
+            P[r'<.* as AddAssign>::add_assign'] = lib.unit
+            P[r'<\[LevelCompactionStats; 7\] as IndexMut<usize>>::index_mut'] = lambda se, env, pc, *a: lib.one(env, Opaque('stats slot'))
+            ex = Exec(mir, S, loop_bound=4, opaque_calls_ok=True)
+            def k(ret, env, pc, ex=ex, merge_ok=merge_ok, open_out=open_out):
+                evs = [e[0] for e in env['$state']['events']]
+                installed = 'install' in evs; failed = 'failed state' in evs
+                may_install = And(BoolVal(merge_ok), Not(shut), fin_ok if open_out else BoolVal(True), Not(it_err))
+                posts = [('the results of a table compaction are installed although the merge failed, the database is shutting down, an output could not be finished or the input iterator reported an error (an unreadable input is deleted with the inputs: its entries are lost)',
+                          Or(BoolVal(not installed), may_install)),
+                         ('a table compaction that went well is not installed', Or(BoolVal(installed), Not(may_install))),
+                         ('an output that is still open after the merge is not finished before the results are installed',
+                          BoolVal((not installed) or (not open_out) or ('finish output' in evs and evs.index('finish output') < evs.index('install')))),
+                         ('a failed table compaction is not recorded as the failed state of the database (or a successful one is)', BoolVal(failed) == Not(And(may_install, inst_ok)))]
+                res.cases['merge %s, output %s: %s' % ('ok' if merge_ok else 'failed', 'open' if open_out else 'closed', ','.join(evs))[:140]] = 1
+                for label, post, m in ex.check_posts(posts, pc):
+                    rep = 'input iterator reported an error' in label and merge_ok
+                    res.violations.append({'label': label, 'case': {'merge_ok': merge_ok, 'output_open': open_out, 'shutting_down': mval(m, shut), 'finish_ok': mval(m, fin_ok), 'iterator_error': mval(m, it_err)}, 'events': evs,
+                                           'replay': ['compact_unreadable_input_all_dropped'] if rep else None, 'confirmed_by': None if rep else {'reproduced': False, 'detail': 'no native scenario for this label / case'}})
+            env = {'$state': {'events': []}, '$dbs': mir.mk_struct('PortableDatabaseState', table_cache='tc', is_shutting_down='atomic', has_immutable_memtable='atomic'),
+                   '$g': mir.mk_struct('GuardedDbFields', version_set={'abstract': True}, snapshots={'abstract': True}, compaction_stats={'abstract': True}), '$guard': Ref('$g')}
+            ex.top(fn, [Ref('$dbs'), Ref('$guard'), {'abstract': True, '__ty': 'CompactionManifest'}], env, [], k)
+            ex.bound_hits = []
+            res.absorb(ex)
+    res.wall_s = time.time() - t0
+    if res.violations: res.status = 'violation'
+    return res
+
+
+def o7_13_confirm(v, out):
+    """Native: a table with live keys a, b, c deep in the tree, a table holding only a tombstone for b above it; reads of the deep table start to
+    fail (fault-injecting file system, cold caches) and the whole range is compacted: every entry the compaction can still read is dropped,
+    so no output is open when the merge ends.  Afterwards (fault gone) a and c must still be readable - or the reads must fail -, never KeyNotFound."""
+    if out.get('_rc') != 0: return (False, 'native run failed: %s' % out.get('_stderr', '')[-300:])
+    return (out.get('lost', '0') != '0', 'native: compaction with an unreadable input and no surviving output: %s of %s acknowledged keys are gone afterwards (fault hit: %s, tables before / after: %s / %s)' % (
+        out.get('lost'), out.get('keys'), out.get('fault_hit'), out.get('tables_before'), out.get('tables_after')))
